@@ -200,15 +200,20 @@ func c50RunExpect(c, expect c50Case, dir string, report func(sig, msg string)) (
 	// input samples.
 	disorder := false
 	{
-		last := map[int]int64{}
+		type sw struct {
+			series int
+			window int64
+		}
+		last := map[sw]int64{} // newest timestamp seen so far per series and block window
 		for _, i := range order {
 			l := ls[i]
 			t := c50TS[l.tsIdx]
-			if prev, ok := last[l.series]; ok && t < prev && c50Floor(t, d) == c50Floor(prev, d) {
+			k := sw{l.series, c50Floor(t, d)}
+			if prev, ok := last[k]; ok && t < prev {
 				disorder = true
 			}
-			if prev, ok := last[l.series]; !ok || t > prev {
-				last[l.series] = t
+			if prev, ok := last[k]; !ok || t > prev {
+				last[k] = t
 			}
 		}
 	}
